@@ -735,6 +735,70 @@ func encRules(c *Ctx) {
 	}
 	e.mustRef()
 	e.consumers()
+	e.fragmentSplit(funcs)
+}
+
+// fragmentSplit (C01): a $ref string is split into document and fragment at the FIRST '#': names may contain '#',
+// so strings.Split(ref, "#") followed by taking element 1 truncates the fragment.
+func (e *encEngine) fragmentSplit(funcs []*core.FuncInfo) {
+	c := e.c
+	n := 0
+	for _, fi := range funcs {
+		info := c.info(fi)
+		ld := c.P.Locals(fi)
+		for _, call := range calls(fi.Decl.Body) {
+			callee := c.P.CalleeAny(fi, call)
+			if callee == nil || len(call.Args) < 2 {
+				continue
+			}
+			full := callee.FullName()
+			if full != "strings.Split" && full != "strings.SplitN" {
+				continue
+			}
+			if sep, ok := core.ConstString(info, call.Args[1]); !ok || sep != "#" {
+				continue
+			}
+			// is element [1] of the result used?
+			takesFragment := false
+			var resObj types.Object
+			if as, ok := c.parents(fi)[call].(*ast.AssignStmt); ok && len(as.Lhs) == 1 {
+				resObj = core.ObjOf(info, as.Lhs[0])
+			}
+			if resObj == nil {
+				continue
+			}
+			_ = ld
+			ast.Inspect(fi.Decl.Body, func(m ast.Node) bool {
+				ix, ok := m.(*ast.IndexExpr)
+				if !ok || core.ObjOf(info, ix.X) != resObj {
+					return true
+				}
+				if tv, ok := info.Types[ix.Index]; ok && tv.Value != nil && tv.Value.String() == "1" {
+					// reading element 1 (not re-joining all parts)
+					takesFragment = true
+				}
+				return true
+			})
+			if !takesFragment {
+				continue
+			}
+			n++
+			ok := full == "strings.SplitN"
+			if ok {
+				if tv, isC := info.Types[call.Args[2]]; !isC || tv.Value == nil || tv.Value.String() != "2" {
+					ok = false
+				}
+			}
+			for _, prop := range []string{"C01", "C04"} {
+				c.S.Decide(ok, prop, "ENC-FRAGSPLIT", fi.QName()+"/"+exprStr(call.Args[0]), c.P.Pos(call.Pos()),
+					"the reference is cut at its first '#' only",
+					"the reference "+exprStr(call.Args[0])+" is split on every '#' and only the piece after the first one is kept as its fragment: a $ref to a definition whose name contains '#' is truncated (inner $refs of imported schemas point to a definition that does not exist)")
+			}
+		}
+	}
+	if n < 1 {
+		c.S.Note("ENC-FRAGSPLIT: no fragment split found below Flatten")
+	}
 }
 
 // consumers (C04/C12 consumer side): every JSON pointer built from an analyzer key in the rewriters goes through
